@@ -282,8 +282,9 @@ namespace bluetoe {
 
                 static constexpr std::size_t uuid_offset = 3;
 
-                int index_low  = static_cast< int >( args.buffer_offset ) - static_cast< int >( uuid_offset );
-                int index_high = static_cast< int >( args.buffer_offset ) - static_cast< int >( uuid_offset + 1 );
+                // position of the first two UUID bytes within the output buffer, that starts at args.buffer_offset
+                int index_low  = static_cast< int >( uuid_offset ) - static_cast< int >( args.buffer_offset );
+                int index_high = static_cast< int >( uuid_offset + 1 ) - static_cast< int >( args.buffer_offset );
 
                 if ( index_low >= 0 && index_low < static_cast< int >( args.buffer_size ) )
                     args.buffer[ index_low ] ^= ( char_index & 0xff );
